@@ -18,7 +18,7 @@ def bin_pairs(dist, w, nb, tie_eps=1e-9):
     """dist: 1-D distances. returns (index of sure bin or -1, [tie candidates lo bin])"""
     x = dist / w
     k = np.floor(x).astype(int)
-    near = np.abs(x - np.rint(x)) < tie_eps
+    near = (np.abs(x - np.rint(x)) < tie_eps) & (dist != 0)      # a separation of exactly zero (two sites on one position) is IN the first bin [0, w): no tie
     edge = np.rint(x).astype(int)
     return k, near, edge
 
